@@ -13,6 +13,7 @@
 -/
 import YalafiVerif.Proofs.Shell
 import YalafiVerif.Properties.PlainExtractStmt
+import YalafiVerif.Properties.SystemIncludeStmt
 namespace Yalafi
 
 theorem C18_include_nodup (includes : Str → List Str) (skip : Str → Bool) (fuel : Nat) (todo out : List Str)
